@@ -207,6 +207,50 @@ func ruleJSExportsDirect(c *Check, rule string, names ...string) {
 	}
 }
 
+// ruleWasmTimeStep (shared by C20 and C02): in the binding's TOTP functions the time step is
+// TimeCounterFunc(time.Unix(<parsed timestamp>, 0), <parsed period>) with the period positive at the division
+// and used verbatim (an unusable period is refused, never replaced).
+func ruleWasmTimeStep(c *Check, w *World, tb *TB, iv *IV, rule string, regs map[string]*ssa.Function) {
+	for _, n := range []string{"generateTOTP", "validateTOTP"} {
+		f := regs[n]
+		if f == nil {
+			continue
+		}
+		found := false
+		EachInstr(f, func(in ssa.Instruction) {
+			cl, ok := in.(*ssa.Call)
+			if !ok {
+				return
+			}
+			t := tb.Of(cl)
+			if t.Op == "calldyn" && t.Args[0].String() == "gval(otp.TimeCounterFunc)" && len(cl.Call.Args) == 2 {
+				found = true
+				p := iv.At(cl.Call.Args[1], cl.Block())
+				c.Decide(!p.ContainsInt(0), rule, "wasm."+n, "period-positive", "the period handed to the time-step function is never 0 ("+p.String()+")", "the period can be 0 at the time-step division: the module crashes instead of answering 'error:'", w.InstrPos(in))
+				pt := t.Args[2]
+				for pt.Op == "conv" && len(pt.Args) == 1 {
+					pt = pt.Args[0]
+				}
+				verbatim := pt.Op == "extract" && pt.Sym == "0" && pt.Args[0].Op == "call" && len(pt.Args[0].Args) == 2 && pt.Args[0].Args[1].IsConst() && pt.Args[0].Args[1].Sym == `"period"`
+				c.Decide(verbatim, rule, "wasm."+n, "period-verbatim", "the period used is the parsed argument itself: an unusable period is refused with 'error:', not replaced", "the period handed to the time-step function is "+clip(normT(pt), 160)+", not the parsed argument itself: an out-of-range period is silently replaced instead of being answered with 'error:'", w.InstrPos(in))
+				tt := t.Args[1]
+				okT := tt.Op == "call" && tt.Sym == "time.Unix" && len(tt.Args) == 2 && tt.Args[1].IsConst() && tt.Args[1].Sym == "0"
+				if okT {
+					a := tt.Args[0]
+					for a.Op == "conv" && len(a.Args) == 1 {
+						a = a.Args[0]
+					}
+					okT = a.Op == "extract" && a.Sym == "0" && a.Args[0].Op == "call" && len(a.Args[0].Args) == 2 && a.Args[0].Args[1].IsConst() && a.Args[0].Args[1].Sym == `"timestamp"`
+				}
+				c.Decide(okT, rule, "wasm."+n, "instant-verbatim", "the instant is time.Unix(<parsed timestamp>, 0)", "the instant handed to the time-step function is "+clip(normT(tt), 160)+", not time.Unix(timestamp, 0) of the parsed argument", w.InstrPos(in))
+			}
+		})
+		if !found {
+			c.Unk(rule, "wasm."+n, "time-step", "no call of the time-step function found in the binding's "+n, w.Pos(f.Pos()))
+		}
+	}
+}
+
 func runC20(c *Check, w *World) {
 	if w.Cfg.Name != CfgWasm.Name {
 		return
@@ -476,24 +520,7 @@ func runC20(c *Check, w *World) {
 			}
 		}
 	}
-	// TOTP: period handed to the time-step function is positive
-	for _, n := range []string{"generateTOTP", "validateTOTP"} {
-		f := regs[n]
-		if f == nil {
-			continue
-		}
-		EachInstr(f, func(in ssa.Instruction) {
-			cl, ok := in.(*ssa.Call)
-			if !ok {
-				return
-			}
-			t := tb.Of(cl)
-			if t.Op == "calldyn" && t.Args[0].String() == "gval(otp.TimeCounterFunc)" && len(cl.Call.Args) == 2 {
-				p := iv.At(cl.Call.Args[1], cl.Block())
-				c.Decide(!p.ContainsInt(0), "R20.4", "wasm."+n, "period-positive", "the period handed to the time-step function is never 0 ("+p.String()+")", "the period can be 0 at the time-step division: the module crashes instead of answering 'error:'", w.InstrPos(in))
-			}
-		})
-	}
+	ruleWasmTimeStep(c, w, tb, iv, "R20.4", regs)
 
 	// ---- R20.5 error convention ----------------------------------------------------------------------------
 	for name, f := range regs {
